@@ -57,6 +57,17 @@ Lemma gstep_bstep env G i stk st :
   gstep env G (GAt i stk st) = option_map (fun b => bstep env b stk st) (G i).
 Proof. cbn [gstep]. destruct (G i) as [[o n|o t f]|]; reflexivity. Qed.
 
+Lemma gstep_at env G i stk st c1 :
+  gstep env G (GAt i stk st) = Some c1 -> exists b, G i = Some b /\ c1 = bstep env b stk st.
+Proof.
+  rewrite gstep_bstep. destruct (G i) as [b|]; [|discriminate].
+  cbn [option_map]. intros E. exists b. split; [reflexivity|]. congruence.
+Qed.
+
+Lemma gstep_at' env G i stk st b :
+  G i = Some b -> gstep env G (GAt i stk st) = Some (bstep env b stk st).
+Proof. intros E. rewrite gstep_bstep, E. reflexivity. Qed.
+
 Lemma gstep_halting env G c : halting c -> gstep env G c = None.
 Proof. destruct c; cbn; intros H; try reflexivity. destruct H. Qed.
 
@@ -308,6 +319,29 @@ Section Merge.
     - apply mr_same; [exact Sx|]. intros Q. subst x. apply P. exact (H_noedge i b Si Eb E).
   Qed.
 
+  Lemma early_case s st :
+    (exists s1 st1, exec_ops env pops s st = BOk s1 st1) \/
+    (forall s1 st1, exec_ops env pops s st <> BOk s1 st1).
+  Proof. destruct (exec_ops env pops s st); eauto; right; discriminate. Qed.
+
+  Lemma merged_target s0 st0 s1 st1 :
+    Lv blk -> exec_ops env pops s0 st0 = BOk s1 st1 ->
+    mrel (bstep env bb s1 st1)
+         (bstep env (map_out rd (set_ops bb (pops ++ b_ops bb))) s0 st0).
+  Proof.
+    intros Sb Ex. rewrite bstep_map_out, (bstep_merged_ok _ _ _ _ _ _ _ Ex).
+    eapply mrel_target; [exact Sb|exact Hblk|exact (HG'_blk Sb)|].
+    rewrite outgoing_map_out, outgoing_set_ops. reflexivity.
+  Qed.
+
+  Lemma merged_early s st :
+    (forall s1 st1, exec_ops env pops s st <> BOk s1 st1) ->
+    bstep env (map_out rd (set_ops bb (pops ++ b_ops bb))) s st = early (exec_ops env pops s st).
+  Proof.
+    intros N. rewrite bstep_map_out, bstep_merged_early by exact N.
+    apply map_conf_halting. apply early_halting. exact N.
+  Qed.
+
   Lemma merge_fwd c0 c : star env G c0 c -> halting c ->
     forall c0', mrel c0 c0' -> star env G' c0' c.
   Proof.
@@ -315,46 +349,24 @@ Section Merge.
     - inversion K; subst; try destruct Hh. apply star_refl.
     - inversion K as [c' Hc|i s st Si Ni|s st Sb|s0 st0 s1 st1 Sb Ex]; subst.
       + rewrite gstep_halting in E by assumption. discriminate.
-      + rewrite gstep_bstep in E. destruct (G i) as [b|] eqn:Eb; [|discriminate].
-        cbn in E. inversion E; subst c1; clear E.
-        pose proof (HG'_other i Si Ni) as E'. rewrite Eb in E'. cbn in E'.
-        eapply star_step; [rewrite gstep_bstep, E'; reflexivity|].
+      + apply gstep_at in E. destruct E as (b & Eb & E). subst c1.
+        pose proof (HG'_other i Si Ni) as E'. rewrite Eb in E'. cbn [option_map] in E'.
+        eapply star_step; [apply gstep_at'; exact E'|].
         rewrite bstep_map_out. apply IH; [exact Hh|].
-        eapply mrel_target; eauto. apply outgoing_map_out.
-      + rewrite gstep_bstep, Hprev in E. cbn [option_map] in E. inversion E; subst c1; clear E.
-        destruct (exec_ops env pops s st) as [s1 st1| | | |] eqn:Ex.
+        eapply mrel_target; [exact Si|exact Eb|exact E'|]. apply outgoing_map_out.
+      + apply gstep_at in E. destruct E as (b & Eb & E). subst c1.
+        rewrite Hprev in Eb. injection Eb as Eb. subst b.
+        destruct (early_case s st) as [(s1 & st1 & Ex)|N].
         * rewrite (bstep_simple_ok _ _ _ _ _ _ _ Ex) in IH. cbn [cont_conf] in IH.
           apply IH; [exact Hh|]. exact (mr_mid _ _ _ _ Sb Ex).
-        * assert (N : forall s1 st1, exec_ops env pops s st <> BOk s1 st1) by (rewrite Ex; discriminate).
-          rewrite bstep_simple_early in St by exact N.
+        * rewrite bstep_simple_early in St by exact N.
           apply star_halting in St; [|apply early_halting; exact N]. subst c.
-          apply star_one'. rewrite gstep_bstep, (HG'_blk Sb). cbn [option_map].
-          rewrite bstep_map_out, bstep_merged_early by exact N.
-          rewrite map_conf_halting by (apply early_halting; exact N). reflexivity.
-        * assert (N : forall s1 st1, exec_ops env pops s st <> BOk s1 st1) by (rewrite Ex; discriminate).
-          rewrite bstep_simple_early in St by exact N.
-          apply star_halting in St; [|apply early_halting; exact N]. subst c.
-          apply star_one'. rewrite gstep_bstep, (HG'_blk Sb). cbn [option_map].
-          rewrite bstep_map_out, bstep_merged_early by exact N.
-          rewrite map_conf_halting by (apply early_halting; exact N). reflexivity.
-        * assert (N : forall s1 st1, exec_ops env pops s st <> BOk s1 st1) by (rewrite Ex; discriminate).
-          rewrite bstep_simple_early in St by exact N.
-          apply star_halting in St; [|apply early_halting; exact N]. subst c.
-          apply star_one'. rewrite gstep_bstep, (HG'_blk Sb). cbn [option_map].
-          rewrite bstep_map_out, bstep_merged_early by exact N.
-          rewrite map_conf_halting by (apply early_halting; exact N). reflexivity.
-        * assert (N : forall s1 st1, exec_ops env pops s st <> BOk s1 st1) by (rewrite Ex; discriminate).
-          rewrite bstep_simple_early in St by exact N.
-          apply star_halting in St; [|apply early_halting; exact N]. subst c.
-          apply star_one'. rewrite gstep_bstep, (HG'_blk Sb). cbn [option_map].
-          rewrite bstep_map_out, bstep_merged_early by exact N.
-          rewrite map_conf_halting by (apply early_halting; exact N). reflexivity.
-      + rewrite gstep_bstep, Hblk in E. cbn [option_map] in E. inversion E; subst c1; clear E.
-        eapply star_step; [rewrite gstep_bstep, (HG'_blk Sb); reflexivity|].
-        rewrite bstep_map_out, (bstep_merged_ok _ _ _ _ _ _ _ Ex).
-        apply IH; [exact Hh|].
-        eapply mrel_target; [exact Sb|exact Hblk|exact (HG'_blk Sb)|].
-        rewrite outgoing_map_out, outgoing_set_ops. reflexivity.
+          apply star_one'. rewrite (gstep_at' _ _ _ _ _ _ (HG'_blk Sb)).
+          rewrite merged_early by exact N. reflexivity.
+      + apply gstep_at in E. destruct E as (b & Eb & E). subst c1.
+        rewrite Hblk in Eb. injection Eb as Eb. subst b.
+        eapply star_step; [apply gstep_at'; exact (HG'_blk Sb)|].
+        apply IH; [exact Hh|]. apply merged_target; assumption.
   Qed.
 
   Lemma merge_bwd c0' c : star env G' c0' c -> halting c ->
@@ -364,49 +376,26 @@ Section Merge.
     - inversion K; subst; try destruct Hh. apply star_refl.
     - inversion K as [c' Hc|i s st Si Ni|s st Sb|s0 st0 s1 st1 Sb Ex]; subst.
       + rewrite gstep_halting in E by assumption. discriminate.
-      + rewrite gstep_bstep, (HG'_other i Si Ni) in E.
-        destruct (G i) as [b|] eqn:Eb; [|discriminate].
-        cbn in E. inversion E; subst c1'; clear E.
-        eapply star_step; [rewrite gstep_bstep, Eb; reflexivity|].
+      + apply gstep_at in E. destruct E as (b' & Eb' & E). subst c1'.
+        pose proof (HG'_other i Si Ni) as E'. rewrite Eb' in E'.
+        destruct (G i) as [b|] eqn:Eb; [|discriminate]. cbn [option_map] in E'.
+        injection E' as E'. subst b'.
+        eapply star_step; [apply gstep_at'; exact Eb|].
         apply IH; [exact Hh|]. rewrite bstep_map_out.
-        eapply mrel_target; [exact Si|exact Eb| |].
-        * rewrite (HG'_other i Si Ni), Eb. reflexivity.
-        * apply outgoing_map_out.
-      + rewrite gstep_bstep, (HG'_blk Sb) in E. cbn [option_map] in E. inversion E; subst c1'; clear E.
-        eapply star_step; [rewrite gstep_bstep, Hprev; reflexivity|].
-        destruct (exec_ops env pops s st) as [s1 st1| | | |] eqn:Ex.
+        eapply mrel_target; [exact Si|exact Eb|exact Eb'|]. apply outgoing_map_out.
+      + apply gstep_at in E. destruct E as (b' & Eb' & E). subst c1'.
+        rewrite (HG'_blk Sb) in Eb'. injection Eb' as Eb'. subst b'.
+        eapply star_step; [apply gstep_at'; exact Hprev|].
+        destruct (early_case s st) as [(s1 & st1 & Ex)|N].
         * rewrite (bstep_simple_ok _ _ _ _ _ _ _ Ex). cbn [cont_conf].
-          eapply star_step; [rewrite gstep_bstep, Hblk; reflexivity|].
-          apply IH; [exact Hh|].
-          rewrite bstep_map_out, (bstep_merged_ok _ _ _ _ _ _ _ Ex).
-          eapply mrel_target; [exact Sb|exact Hblk|exact (HG'_blk Sb)|].
-          rewrite outgoing_map_out, outgoing_set_ops. reflexivity.
-        * assert (N : forall s1 st1, exec_ops env pops s st <> BOk s1 st1) by (rewrite Ex; discriminate).
-          rewrite bstep_simple_early by exact N. apply IH; [exact Hh|].
-          rewrite bstep_map_out, bstep_merged_early by exact N.
-          rewrite map_conf_halting by (apply early_halting; exact N).
-          apply mr_halt. apply early_halting; exact N.
-        * assert (N : forall s1 st1, exec_ops env pops s st <> BOk s1 st1) by (rewrite Ex; discriminate).
-          rewrite bstep_simple_early by exact N. apply IH; [exact Hh|].
-          rewrite bstep_map_out, bstep_merged_early by exact N.
-          rewrite map_conf_halting by (apply early_halting; exact N).
-          apply mr_halt. apply early_halting; exact N.
-        * assert (N : forall s1 st1, exec_ops env pops s st <> BOk s1 st1) by (rewrite Ex; discriminate).
-          rewrite bstep_simple_early by exact N. apply IH; [exact Hh|].
-          rewrite bstep_map_out, bstep_merged_early by exact N.
-          rewrite map_conf_halting by (apply early_halting; exact N).
-          apply mr_halt. apply early_halting; exact N.
-        * assert (N : forall s1 st1, exec_ops env pops s st <> BOk s1 st1) by (rewrite Ex; discriminate).
-          rewrite bstep_simple_early by exact N. apply IH; [exact Hh|].
-          rewrite bstep_map_out, bstep_merged_early by exact N.
-          rewrite map_conf_halting by (apply early_halting; exact N).
-          apply mr_halt. apply early_halting; exact N.
-      + rewrite gstep_bstep, (HG'_blk Sb) in E. cbn [option_map] in E. inversion E; subst c1'; clear E.
-        eapply star_step; [rewrite gstep_bstep, Hblk; reflexivity|].
-        apply IH; [exact Hh|].
-        rewrite bstep_map_out, (bstep_merged_ok _ _ _ _ _ _ _ Ex).
-        eapply mrel_target; [exact Sb|exact Hblk|exact (HG'_blk Sb)|].
-        rewrite outgoing_map_out, outgoing_set_ops. reflexivity.
+          eapply star_step; [apply gstep_at'; exact Hblk|].
+          apply IH; [exact Hh|]. apply merged_target; assumption.
+        * rewrite bstep_simple_early by exact N. apply IH; [exact Hh|].
+          rewrite merged_early by exact N. apply mr_halt. apply early_halting. exact N.
+      + apply gstep_at in E. destruct E as (b' & Eb' & E). subst c1'.
+        rewrite (HG'_blk Sb) in Eb'. injection Eb' as Eb'. subst b'.
+        eapply star_step; [apply gstep_at'; exact Hblk|].
+        apply IH; [exact Hh|]. apply merged_target; assumption.
   Qed.
 
   (* entering at [prev] in G = entering at [blk] in G' *)
